@@ -189,7 +189,8 @@ WITNESS = {}     # last argmin of lae_optimum / mpe_optimum (edge-multiplicity v
 
 def lae_optimum(ug, k, wint, allow_empty=False, given=None, k_user=None, budget=3_000_000, cap=None):
     """least total scaled absolute error over all choices of k routes and weights on the grid; None if not computed.
-    `cap` (diagnosis only): additionally require weight * multiplicity <= cap and every error <= cap."""
+    `cap` (diagnosis only): additionally require weight * multiplicity <= cap and every error <= cap (given weights:
+    every error <= cap)."""
     vecs = _route_vectors(ug, allow_empty or given is not None)
     if vecs is None or not vecs:
         return None
@@ -210,8 +211,10 @@ def lae_optimum(ug, k, wint, allow_empty=False, given=None, k_user=None, budget=
             tot = Fraction(0)
             for j in range(m):
                 s = sum(W[i] * choice[i][j] for i in range(len(W)))
+                if cap is not None and abs(f[j] - s) > cap:
+                    tot = None; break
                 tot += sc[j] * abs(f[j] - s)
-            if best is None or tot < best:
+            if tot is not None and (best is None or tot < best):
                 best = tot
                 WITNESS["lae"] = {"basic": ug.basic, "routes": choice, "weights": W}
         return best
@@ -290,7 +293,7 @@ def mpe_optimum(ug, k, phi=Fraction(1), allow_empty=False, given=None, k_user=No
             if sum(1 for c in choice if c != zero) > k_user:
                 continue
             req = [abs(f[j] - sum(W[i] * choice[i][j] for i in range(len(W)))) * sc[j] for j in range(m)]
-            s = _min_slack(list(choice), req, phi, best)
+            s = _min_slack(list(choice), req, phi, best, cap)
             if s is not None and (best is None or s < best):
                 best = s
                 WITNESS["mpe"] = {"basic": ug.basic, "routes": choice, "weights": W, "total_slack": s}
